@@ -86,6 +86,9 @@ mod x86_64 {
             asm!("pushfq; pop {}", out(reg) r, options(nomem, preserves_flags));
         }
 
+        #[cfg(feature = "verif_hooks")]
+        let r = crate::verif_hooks::rflags_overlay(r);
+
         r
     }
 
@@ -119,6 +122,14 @@ mod x86_64 {
     /// flags also used by Rust/LLVM can result in undefined behavior too.
     #[inline]
     pub unsafe fn write_raw(val: u64) {
+        #[cfg(feature = "verif_hooks")]
+        let val = {
+            let real: u64;
+            unsafe {
+                asm!("pushfq; pop {}", out(reg) real, options(nomem, preserves_flags));
+            }
+            crate::verif_hooks::rflags_written(val, real)
+        };
         // HACK: we mark this function as preserves_flags to prevent Rust from restoring
         // saved flags after the "popf" below. See above note on safety.
         unsafe {
